@@ -440,6 +440,7 @@ func (d *oDB) apply(o *op) (res, string) {
 		d.MboxSeq++
 		m := oMbox{ID: d.MboxSeq, Remote: o.N1, Name: o.N2, UIDV: o.N3, Sub: true}
 		d.Mboxes = append(d.Mboxes, m)
+		d.subsDropName(o.N2) // the name exists again: an entry that outlived an earlier mailbox of this name goes
 		for _, f := range o.Flags {
 			d.BFlags = append(d.BFlags, oBFlag{m.ID, f})
 		}
@@ -506,6 +507,7 @@ func (d *oDB) apply(o *op) (res, string) {
 			return res{}, errOth
 		}
 		m.Name = o.N2
+		d.subsDropName(o.N2)
 		return rUnit(), errNone
 	case "SetSubscribed":
 		if m := d.mboxByID(o.Box); m != nil {
@@ -868,6 +870,16 @@ func (d *oDB) apply(o *op) (res, string) {
 		return out, errNone
 	}
 	panic("oracle: unknown op " + o.K)
+}
+
+func (d *oDB) subsDropName(name int) {
+	var s [][2]int
+	for _, p := range d.Subs {
+		if p[0] != name {
+			s = append(s, p)
+		}
+	}
+	d.Subs = s
 }
 
 func (d *oDB) subsAdd(name, remote int) bool {
